@@ -112,7 +112,7 @@ type evidence struct {
 
 // finish applies the known-findings file, writes evidence and replay files,
 // prints the protocol lines and returns the exit code.
-func (r *Report) finish(c *Ctx, verifDir, tier string, seed int, wall float64) int {
+func (r *Report) finish(c *Ctx, verifDir, outDir, tier string, seed int, wall float64) int {
 	known, err := loadKnown(filepath.Join(verifDir, "known_findings.json"))
 	if err != nil {
 		fmt.Fprintf(os.Stderr, "nfpmcheck: %v\n", err)
@@ -155,7 +155,7 @@ func (r *Report) finish(c *Ctx, verifDir, tier string, seed int, wall float64) i
 		}
 	}
 
-	evDir := filepath.Join(verifDir, "evidence")
+	evDir := filepath.Join(outDir, "evidence")
 	replayDir := filepath.Join(evDir, "replay")
 	_ = os.MkdirAll(replayDir, 0o755)
 	// remove stale replay files of this property
@@ -236,7 +236,7 @@ func (r *Report) finish(c *Ctx, verifDir, tier string, seed int, wall float64) i
 		"module_functions":    funcs,
 		"samples":             samples,
 		"exhaustive":          r.Exhaustive,
-		"notes":               r.Notes,
+		"notes":               append([]string{}, r.Notes...),
 		"known_findings_hit":  knownHits,
 		"checker_cmd":         fmt.Sprintf("bin/nfpmcheck -property %s -tier %s", r.Property, tier),
 		"trusted_base":        []string{"go/types type checker", "golang.org/x/tools/go/ssa v0.29.0 construction and dominator tree", "/verif/spec oracle tables (transcribed from the property statements)"},
